@@ -7,7 +7,7 @@ from ..models import naming, cfg as cfgm
 from ..parsers import symbols as sym
 from .c15 import STEER, CONFIGS, kotlin_error_attrs
 
-RULE = ("Hypothesis-generated programs valid for a drawn set of 2-4 backends, with abi_rename patterns (with and without {0}) placed at random on "
+RULE = ("Hypothesis-generated programs valid for a drawn set of 2-4 backends, with abi_rename patterns (with and without {0}) placed at random on (a third of the programs also nest a second bridge module inside the first, which the enclosing module's pattern must not reach) "
         "modules / opaque types / impl blocks / methods, renames, and backend-conditional disables on impls and methods. The crate is compiled with the real "
         "proc macro and its object file read with nm; each backend's output is parsed for the native symbols it declares and calls. Oracles: nm set == reference "
         "naming model (Type_method / Type_destroy, nearest enclosing pattern wins); per backend, declared set == called set == model set of enabled methods and "
@@ -64,6 +64,13 @@ def cases(draw):
         kotlin_error_attrs(prog)
     if "demo_gen" in bs:
         add_demo_constructors(prog)
+    if draw(st.integers(0, 2)) == 0:
+        # a bridge module nested in the first one: it is a bridge of its own (the proc macro expands it separately), so the
+        # enclosing module's abi_rename must not reach its symbols
+        nested_methods = [{"name": "peek", "attrs": [], "lifetimes": [], "self": ["ref", None, False], "params": [], "ret": ["prim", "u8"]},
+                          {"name": "dv_demo_new", "attrs": ["#[diplomat::demo(default_constructor)]"], "lifetimes": [], "self": None, "params": [], "ret": ["box", "DvNested", []]}]
+        prog["modules"].append({"name": "dv_nested", "attrs": [], "uses": [], "nested_in": 0,
+                                "items": [{"kind": "opaque", "name": "DvNested", "attrs": [], "lifetimes": [], "impls": [{"attrs": [], "methods": nested_methods}]}]})
     saved = S.CFG_ATOMS
     S.CFG_ATOMS = NO_SUPPORTS_ATOMS
     try:
@@ -109,6 +116,8 @@ def check_case(art, work, bs, prog):
     if exported is None:
         return src, [("rustc", "the crate does not compile: " + err[-600:])], ["rustc:fail"], nt
     labels.append("nm:ok")
+    if any(m.get("nested_in") is not None for m in prog["modules"]):
+        labels.append("nested-bridge-module" + (":under-abi-rename" if any("abi_rename" in a for a in prog["modules"][0].get("attrs", [])) else ""))
     if exported != model_all:
         fails.append(("nm", "exported symbols differ from the documented naming scheme: only in library %s, only in model %s" % (sorted(exported - model_all)[:6], sorted(model_all - exported)[:6])))
     for b in bs:
